@@ -162,7 +162,10 @@ MacroDefs(prog, scope) ==
 RECURSIVE WalkSeq(_, _, _, _, _, _), WalkStmt(_, _, _, _, _, _), LoopIter(_, _, _, _, _, _, _, _)
 
 (* the table references are resolved in *)
-RefTab(st, sigma, frozen) == IF frozen THEN sigma ELSE st.tab
+(* `index' exists only while its loop iteration is walked, so no final valuation holds it: it is always taken from the walk *)
+IsIndexKey(k) == k = "index" \/ (Len(k) > 6 /\ SubSeq(k, Len(k) - 5, Len(k)) = ".index")
+RefTab(st, sigma, frozen) ==
+  IF frozen THEN [k \in {x \in DOMAIN st.tab : IsIndexKey(x)} |-> st.tab[k]] @@ sigma ELSE st.tab
 
 EvalE(t, st, sigma, frozen) ==
   LET tab == RefTab(st, sigma, frozen)
